@@ -791,3 +791,5 @@ def run(chk):
     chk.guard("R12.8", "pk-len", c04.check_pk_len, al, F)
     chk.guard("R12.9", "key-kinds", check_key_kinds, chk, F)
     chk.guard("R12.10", "bare-standardness", check_other_top_level, chk, F)
+    from . import limits as _limits
+    chk.guard("R12.11", "timelock-composition", _limits.check_timelock_composition, chk, F, "R12.11")
